@@ -12,10 +12,16 @@
 //!        the source `sig exp prec` is a float of base S (hex); every pair of CONV_PAIRS is instantiated
 //!   rbig k (num den route param){k}      RBig  (+ the pairs RBig x Relaxed for AbsOrd)
 //!   rlx  k (num den route param){k}      Relaxed
+//!   iop  op a b                          one IBig / UBig operation on operands built from raw words; every output with its
+//!                                        layout (round 3: the Repr-level models of C05 predict value, length and inline flag)
+//!        op: div rem divrem diveu remeu divremeu (IBig, the signed forms)  udivrem udiv urem (UBig on |a|, |b|)
+//!            and_F or_F xor_F with F in vv vr rv rr (IBig)  not notref  shr shrref shl shlref (IBig, b = amount)
+//!   dub  base sig                        Repr::<base>::digits_ub / digits_lb of the significand with the f32 estimates they
+//!                                        are computed from: bits of sig.log2_bounds() and of BASE.log2_bounds()
 #![allow(deprecated)]
 use core::cmp::Ordering;
 use core::hash::{Hash, Hasher};
-use dashu_base::{AbsEq, AbsOrd, BitTest, DivRem, Sign as BSign, Signed, SquareRoot, UnsignedAbs};
+use dashu_base::{AbsEq, AbsOrd, BitTest, DivEuclid, DivRem, DivRemEuclid, EstimatedLog2, RemEuclid, Sign as BSign, Signed, SquareRoot, UnsignedAbs};
 use dashu_float::round::Round;
 use dashu_int::verif_hooks::{repr_layout_ibig, repr_layout_ubig};
 use hlib::*;
@@ -883,8 +889,105 @@ fn run_rlx(a: &[&str]) -> String {
     out
 }
 
+// ------------------------------------------------------------------------------------------------
+// round 3: single operations with their layout; the digit estimate with its inputs
+// ------------------------------------------------------------------------------------------------
+fn ilay(x: &IBig) -> String {
+    format!(" {} {}", hi(x), lay(repr_layout_ibig(x)))
+}
+fn ulay(x: &UBig) -> String {
+    format!(" {} {}", hu(x), lay(repr_layout_ubig(x)))
+}
+
+fn run_iop(a: &[&str]) -> String {
+    let op = a[0];
+    let x = ibig(a[1]);
+    let y = ibig(a[2]);
+    let mut out = String::from("ok");
+    macro_rules! form {
+        ($f:expr, $o:tt) => {
+            match $f {
+                "vv" => x.clone() $o y.clone(),
+                "vr" => x.clone() $o &y,
+                "rv" => &x $o y.clone(),
+                "rr" => &x $o &y,
+                other => panic!("unknown ownership form {}", other),
+            }
+        };
+    }
+    match op {
+        "div" => out.push_str(&ilay(&(&x / &y))),
+        "rem" => out.push_str(&ilay(&(&x % &y))),
+        "divrem" => {
+            let (q, r) = (&x).div_rem(&y);
+            out.push_str(&ilay(&q));
+            out.push_str(&ilay(&r));
+        }
+        "diveu" => out.push_str(&ilay(&(&x).div_euclid(&y))),
+        "remeu" => out.push_str(&ulay(&(&x).rem_euclid(&y))),
+        "divremeu" => {
+            let (q, r) = (&x).div_rem_euclid(&y);
+            out.push_str(&ilay(&q));
+            out.push_str(&ulay(&r));
+        }
+        "udivrem" => {
+            let (q, r) = x.clone().unsigned_abs().div_rem(y.clone().unsigned_abs());
+            out.push_str(&ulay(&q));
+            out.push_str(&ulay(&r));
+        }
+        "udiv" => out.push_str(&ulay(&(x.clone().unsigned_abs() / y.clone().unsigned_abs()))),
+        "urem" => out.push_str(&ulay(&(x.clone().unsigned_abs() % &y.clone().unsigned_abs()))),
+        "not" => out.push_str(&ilay(&!x.clone())),
+        "notref" => out.push_str(&ilay(&!&x)),
+        "shr" => out.push_str(&ilay(&(x.clone() >> usize::try_from(&y).unwrap()))),
+        "shrref" => out.push_str(&ilay(&(&x >> usize::try_from(&y).unwrap()))),
+        "shl" => out.push_str(&ilay(&(x.clone() << usize::try_from(&y).unwrap()))),
+        "shlref" => out.push_str(&ilay(&(&x << usize::try_from(&y).unwrap()))),
+        _ => match op.split_once('_') {
+            Some(("and", f)) => out.push_str(&ilay(&form!(f, &))),
+            Some(("or", f)) => out.push_str(&ilay(&form!(f, |))),
+            Some(("xor", f)) => out.push_str(&ilay(&form!(f, ^))),
+            _ => return "err unknown-iop".to_string(),
+        },
+    }
+    out
+}
+
+fn dub_b<const B: Word>(sig: &str) -> String {
+    let r = Repr::<B>::new(ibig(sig), 0);
+    let s = r.significand();
+    let (lb, ub) = s.log2_bounds();
+    let (blb, bub) = Repr::<B>::BASE.log2_bounds();
+    // the representation handed back (Repr::new strips trailing digits: the estimate is about the stored significand)
+    format!(
+        "ok {} {:x} {:x} {:x} {:x} {:x} {:x}",
+        hi(s),
+        lb.to_bits(),
+        ub.to_bits(),
+        blb.to_bits(),
+        bub.to_bits(),
+        r.digits_ub(),
+        r.digits_lb()
+    )
+}
+
+fn run_dub(a: &[&str]) -> String {
+    match a[0] {
+        "2" => dub_b::<2>(a[1]),
+        "3" => dub_b::<3>(a[1]),
+        "7" => dub_b::<7>(a[1]),
+        "a" => dub_b::<10>(a[1]),
+        "10" => dub_b::<16>(a[1]),
+        "64" => dub_b::<100>(a[1]),
+        "ffff" => dub_b::<65535>(a[1]),
+        other => panic!("unsupported base {}", other),
+    }
+}
+
 fn run(op: &str, a: &[&str]) -> String {
     match op {
+        "iop" => run_iop(a),
+        "dub" => run_dub(a),
         "uint" => run_uint(a),
         "int" => run_int(a),
         "flt" => run_flt(a),
